@@ -200,7 +200,7 @@ type c05EdgeAtom struct{ name, text string }
 var c05EdgeAtoms = []c05EdgeAtom{
 	{"empty", ""}, {"plus", "+"}, {"minus", "-"}, {"bslash", "\\"}, {"dot", "."}, {"curly", "{}"}, {"cut", "!"},
 	{"semi", ";"}, {"comma", ","}, {"bar", "|"}, {"mod", "mod"}, {"naf", "\\+"}, {"neck", ":-"}, {"space", "hello world"},
-	{"upper", "A"}, {"uni", "é"}, {"quote", "don't"}, {"nl", "a\nb"}, {"long", strings.Repeat("ab", 1000)},
+	{"upper", "A"}, {"uni", "é"}, {"quote", "don't"}, {"nl", "a\nb"}, {"long", strings.Repeat("ab", 300)}, // 600 characters: sub_atom/5 with everything unbound builds n*n/2 alternatives at once
 }
 
 // the positions an edge atom A is put in: as the argument itself, as a functor, in a predicate indicator,
